@@ -648,6 +648,8 @@ class P(Property):
     def spec_ok(self, case, out, spec):
         if spec is None:
             return True
+        if out.endswith(' LOST-WAKEUP'):
+            return False
         head, kv = self.fields(out)
         _, sp = self.fields(spec)
         if head in ('indet', 'outside'):
